@@ -175,4 +175,4 @@ def _obligations():
 
 
 def obligations():
-    return _obligations() + [labels_obligation("C10"), selectors_obligation("C10"), effects_obligation("C10"), plumbing_obligation("C10")]
+    return _obligations() + [labels_obligation("C10"), selectors_obligation("C10"), effects_obligation("C10"), plumbing_obligation("C10"), overrides_obligation("C10"), options_obligation("C10")]
